@@ -385,6 +385,17 @@ pub fn c12_case(b: &Built, pats: &[Vec<u8>], hay: &[u8], m: Method, acc: &mut Ac
     let expected = b.auto.run(slice_m, hay);
     let hist = b.auto.run_counting(m, hay);
     acc.traces += 1;
+    // a source that knows its length (exact size_hint) must give the same matches as well
+    let sized = b.auto.run(m, hay);
+    if sized != expected {
+        let mut c = e2::case_json(&b.cfg, pats, None);
+        let o = c.as_object_mut().unwrap();
+        o.insert("haystack".into(), json!(hex(hay)));
+        o.insert("method".into(), json!(m.name()));
+        acc.violate(prop, "lazy", format!("{} fed from a source with an exact size hint yields {:?}, {} yields {:?} [{} patterns {} haystack {:?}]",
+            m.name(), sized, slice_m.name(), expected, b.cfg.variant.name(), e2::show_pats(pats), e2::show(hay)), c);
+        return;
+    }
     let got: Vec<M> = hist.iter().filter_map(|h| h.0).collect();
     let mut bad: Option<String> = None;
     if got != expected {
@@ -752,6 +763,85 @@ pub fn c14(tier: &str, acc: &mut Acc, bounds: &mut Vec<String>) {
     }
     acc.merge(am);
     bounds.push("all merges of the next() call sequences of 2 (and 3) iterators over 3 pattern sets x both variants x 3 kinds; image unchanged after every complete merge".into());
+    // --- searching does not write to the automaton: byte snapshot of the object itself ---------
+    let mut asn = Acc::new();
+    for (pi, ps) in pat_sets.iter().enumerate() {
+        let pats: Vec<Vec<u8>> = ps.iter().map(|s| s.as_bytes().to_vec()).collect();
+        for variant in Variant::ALL {
+            for kind in Kind::ALL {
+                let cfg = Cfg::new(variant, kind, None, Entry::Builder);
+                set_case(prop, "merges", e2::case_json(&cfg, &pats, None));
+                let Some(b) = e2::build_or_violate(prop, "merges", cfg, &pats, None, &mut asn) else {
+                    continue;
+                };
+                let before = (b.auto.object_bytes(), b.auto.serialize());
+                for h in &hay_sets[pi] {
+                    for &m in Method::for_kind(kind) {
+                        let _ = b.auto.run(m, h.as_bytes());
+                        asn.evals += 1;
+                        asn.traces += 1;
+                        let after = (b.auto.object_bytes(), b.auto.serialize());
+                        if after != before {
+                            let mut c = e2::case_json(&cfg, &pats, None);
+                            c.as_object_mut().unwrap().insert("methods".into(), json!([m.name()]));
+                            c.as_object_mut().unwrap().insert("haystacks".into(), json!([hex(h.as_bytes())]));
+                            c.as_object_mut().unwrap().insert("check".into(), json!("snapshot"));
+                            asn.violate(prop, "merges", format!("{} on {:?} changed the memory of the {} automaton object (interior mutability: searching is not pure)", m.name(), h, variant.name()), c);
+                            break;
+                        }
+                    }
+                }
+            }
+        }
+    }
+    acc.merge(asn);
+    bounds.push("object snapshot: the bytes of the automaton object (inline fields) and its serialised image are identical before and after every search method x haystack x 3 pattern sets x both variants x 3 kinds".into());
+    // --- supplementary, SAMPLED (not exhaustive): free-running OS threads on one shared automaton
+    let rounds = if thorough { 60_000 } else { 8_000 };
+    let mut afr = Acc::new();
+    for variant in Variant::ALL {
+        for kind in [Kind::Std, Kind::LL] {
+            let pats: Vec<Vec<u8>> = ["\u{4e16}\u{754c}", "a\u{4e16}", "b", "ab", "\u{e9}b"].iter().map(|s| s.as_bytes().to_vec()).collect();
+            let cfg = Cfg::new(variant, kind, None, Entry::Builder);
+            set_case(prop, "merges", e2::case_json(&cfg, &pats, None));
+            let Some(b) = e2::build_or_violate(prop, "merges", cfg, &pats, None, &mut afr) else {
+                continue;
+            };
+            let hays: Vec<Vec<u8>> = ["ab\u{4e16}\u{754c}a\u{4e16}", "\u{e9}bab", "b\u{754c}\u{4e16}\u{754c}", "xyzab"].iter().map(|s| s.as_bytes().to_vec()).collect();
+            let ms = Method::for_kind(kind);
+            let expected: Vec<Vec<Vec<M>>> = hays.iter().map(|h| ms.iter().map(|&m| b.auto.run(m, h)).collect()).collect();
+            let bad = std::sync::atomic::AtomicBool::new(false);
+            std::thread::scope(|sc| {
+                for t in 0..4usize {
+                    let (b, hays, expected, bad) = (&b, &hays, &expected, &bad);
+                    sc.spawn(move || {
+                        for r in 0..rounds {
+                            let hi = (r + t) % hays.len();
+                            for (mi, &m) in ms.iter().enumerate() {
+                                if b.auto.run(m, &hays[hi]) != expected[hi][mi] {
+                                    bad.store(true, std::sync::atomic::Ordering::Relaxed);
+                                    return;
+                                }
+                            }
+                            if bad.load(std::sync::atomic::Ordering::Relaxed) {
+                                return;
+                            }
+                        }
+                    });
+                }
+            });
+            afr.count("free_running_thread_searches_sampled", (4 * rounds * ms.len()) as u64);
+            if bad.load(std::sync::atomic::Ordering::Relaxed) {
+                let mut c = e2::case_json(&cfg, &pats, None);
+                c.as_object_mut().unwrap().insert("check".into(), json!("threads"));
+                c.as_object_mut().unwrap().insert("haystacks".into(), json!(hays.iter().map(|h| hex(h)).collect::<Vec<_>>()));
+                c.as_object_mut().unwrap().insert("methods".into(), json!(ms.iter().map(|m| m.name()).collect::<Vec<_>>()));
+                afr.violate(prop, "merges", format!("4 OS threads searching one shared {} automaton concurrently got a result that differs from the sequential one", variant.name()), c);
+            }
+        }
+    }
+    acc.merge(afr);
+    bounds.push(format!("supplementary, sampled (not exhaustive): 4 free-running OS threads x {rounds} rounds x all methods on one shared automaton, both variants, Standard and LeftmostLongest"));
 }
 
 pub fn replay_orders(case: &Value) -> bool {
@@ -785,6 +875,13 @@ pub fn replay_orders(case: &Value) -> bool {
 }
 
 pub fn replay_merges(case: &Value) -> bool {
+    if matches!(case["check"].as_str(), Some("snapshot") | Some("threads")) {
+        let mut acc = Acc::new();
+        let mut b = Vec::new();
+        println!("replay: re-running the purity part of C14");
+        c14("quick", &mut acc, &mut b);
+        return !acc.violations.is_empty();
+    }
     let cfg = Cfg::from_json(case);
     let pats: Vec<Vec<u8>> = case["patterns"].as_array().unwrap().iter().map(|p| util::unhex(p.as_str().unwrap())).collect();
     let methods: Vec<Method> = case["methods"].as_array().unwrap().iter().map(|m| Method::parse(m.as_str().unwrap())).collect();
